@@ -22,9 +22,16 @@ EXTRA_MODEL = M('Extra', [F('tag', 'Char', max_length=20, db_index=True),
                           F('n', 'Int', unique=True)])
 
 
-def with_extra(spec):
+def with_extra(spec, kind=True):
     sp = S.clone(spec)
-    sp['apps'][0]['models'].append(S.clone(EXTRA_MODEL))
+    if kind == 'two-apps':
+        # two brand-new apps: their models are created in ONE batch
+        sp['apps'].append(A('vn1', [M('Fresh1', [
+            F('x', 'Char', max_length=20, db_index=True)])]))
+        sp['apps'].append(A('vn2', [M('Fresh2', [
+            F('y', 'Int', null=True)])]))
+    else:
+        sp['apps'][0]['models'].append(S.clone(EXTRA_MODEL))
     return sp
 
 
@@ -42,7 +49,8 @@ class ProgramRun(object):
         final = start
         for label, mj in steps:
             final = ML.apply(final, label, mj)
-        self.final = with_extra(final) if extra_model else final
+        self.final = with_extra(final, extra_model) if extra_model \
+            else final
         self.final_plain = final
         if purge:
             # a stale app (installed in the database, gone from the code)
@@ -52,6 +60,9 @@ class ProgramRun(object):
             self.base_image = D.baseline(with_old, rows=rows, db=db)
         else:
             self.base_image = D.baseline(start, rows=rows, db=db)
+
+    def extra_apps(self):
+        return ('vn1', 'vn2') if self.extra == 'two-apps' else ()
 
     def execute(self, fault_at=None, bookkeeping=False):
         from django_evolution import management
@@ -72,7 +83,7 @@ class ProgramRun(object):
         lock_before = management._evolve_lock
         with O.SignalLog(seq) as log:
             res = D.d2('va', evos, tracer=tracer, purge=self.purge,
-                       db=self.db)
+                       db=self.db, extra_apps=self.extra_apps())
         return {'res': res, 'events': log.events,
                 'statements': tracer.statements, 'tracer': tracer,
                 'lock_before': lock_before,
@@ -117,7 +128,9 @@ def judge_program(pr, stats, add7, add17):
         stats['faulted_runs'] += 1
         res = run['res']
         sk = effects[k - 1]
-        where = stmt_shape(sk[0]) + ('|with-new-model' if pr.extra else '') \
+        where = stmt_shape(sk[0]) + (
+            '|with-two-new-apps' if pr.extra == 'two-apps' else
+            '|with-new-model' if pr.extra else '') \
             + ('|with-purge' if pr.purge else '') \
             + ('|db=other' if pr.db != 'default' else '')
         if res.ok:
@@ -148,7 +161,8 @@ def judge_program(pr, stats, add7, add17):
         MZ.install(pr.final)
         real = [ML.to_real(mj) for _l, mj in pr.steps]
         evos = [{'label': 'e1', 'mutations': real}] if real else []
-        res2 = D.d2('va', evos, purge=pr.purge, db=pr.db)
+        res2 = D.d2('va', evos, purge=pr.purge, db=pr.db,
+                    extra_apps=pr.extra_apps())
         stats['runs'] += 1
         if not res2.ok:
             if post == pre:
@@ -213,7 +227,8 @@ def diff_kind(pre, post):
 
 
 def shape17(pr):
-    return 'new-model' if pr.extra else 'evolution-only'
+    return 'two-new-apps' if pr.extra == 'two-apps' else \
+        'new-model' if pr.extra else 'evolution-only'
 
 
 def work(task):
@@ -289,6 +304,12 @@ def tasks_for(tier):
         add('narrow-d2', narrow, 2, 'lite', KINDS, (False,))
         add('two-model-d1', two, 1, 'full', None, (False,))
         tasks.append(('new-model-only', narrow, [], 'R2', True))
+        # two brand-new apps whose models are created in one batch, alone
+        # and together with an evolution
+        tasks.append(('two-new-apps-only', narrow, [], 'R2', 'two-apps'))
+        for i, steps in enumerate(gen_programs(narrow, 1, 'lite', KINDS)):
+            tasks.append(('two-new-apps#%d' % i, narrow, steps, 'R2',
+                          'two-apps'))
         # an evolution and a purge of a stale app in the same run (two
         # task classes)
         for i, steps in enumerate(gen_programs(narrow, 1, 'lite', KINDS)):
@@ -311,6 +332,10 @@ def tasks_for(tier):
                                                      'DeleteModel'),
             (False, True))
         tasks.append(('new-model-only', narrow, [], 'R2', True))
+        tasks.append(('two-new-apps-only', narrow, [], 'R2', 'two-apps'))
+        for i, steps in enumerate(gen_programs(narrow, 2, 'lite', KINDS)):
+            tasks.append(('two-new-apps#%d' % i, narrow, steps, 'R2',
+                          'two-apps'))
     return tasks
 
 
